@@ -72,13 +72,15 @@ def pools(rng):
     ]
     a = E.point(rng)
     base.append(dict(vls=a[0], Dp=a[1], d=a[2], epsilon=a[3], nu=a[4], rhol=a[5], rhos=a[6], Cv=a[7]))
+    # a creeping flow (laminar: Re about 1000-2000): the functions are defined there too, and a branch that is hardly ever taken is where state hides
+    base.append(dict(vls=0.02, Dp=0.1016, d=0.2e-3, epsilon=4.5e-5, nu=1.0e-6, rhol=1.0, rhos=2.65, Cv=0.1, laminar=True))
     return base
 
 
 def arg_for(name, b, rng):
     near = (1 + rng.choice([0, 0, 0, 1e-5, 3e-5])) if rng.random() < 0.6 else 1.0
     if name in ('vls', 'Vls'):
-        return b['vls']
+        return rng.choice([0.02, 0.015, 0.01, 0.02]) if b.get('laminar') else b['vls']
     if name in ('Dp', 'd', 'epsilon', 'nu', 'rhol', 'rhos'):
         # siblings: the same slurry with exactly one parameter changed (a cache key that omits a parameter needs this)
         if rng.random() < 0.12:
@@ -97,7 +99,7 @@ def arg_for(name, b, rng):
     if name == 'd85':
         return min(b['d'], 0.1 * b['Dp']) * 2.0
     if name == 'Re':
-        return b['vls'] * b['Dp'] / b['nu']
+        return (rng.choice([0.02, 0.015, 0.01]) if b.get('laminar') else b['vls']) * b['Dp'] / b['nu']
     if name == 'Dp_H':
         return b['Dp'] * 0.8
     if name == 'v1':
